@@ -91,6 +91,8 @@ mod stats;
 pub mod upgrade;
 mod version;
 mod writer;
+#[cfg(arroy_verif)]
+pub mod verif;
 
 #[cfg(test)]
 mod tests;
